@@ -344,6 +344,52 @@ func force(v px.Value) {
 	}
 }
 
+// use makes v the RECEIVER and the ARGUMENT of the collection operations that do not change it (they read, and may fill or
+// share, its hidden index / backing storage): merging, adding, deleting, selecting, slicing.  None of them may change what v
+// equals, finds or is keyed by afterwards ("equality does not depend on hidden state").  MutableHashValue operands are left
+// alone: Put/PutAll change them by contract.
+func use(v, other px.Value) {
+	switch v := v.(type) {
+	case *types.Hash:
+		var k0 px.Value
+		v.EachPair(func(k, _ px.Value) {
+			if k0 == nil {
+				k0 = k
+			}
+		})
+		if o, ok := other.(*types.Hash); ok {
+			_ = safely(func() { v.Merge(o) })
+			_ = safely(func() { v.AddAll(o) })
+			_ = safely(func() { v.DeleteAll(o.Keys()) })
+		}
+		if o, ok := other.(*types.Array); ok {
+			_ = safely(func() { v.DeleteAll(o) })
+		}
+		_ = safely(func() { v.Merge(types.WrapHash([]*types.HashEntry{types.WrapHashEntry2("\x00use", other)})) })
+		_ = safely(func() { v.Delete(other) })
+		if k0 != nil {
+			_ = safely(func() { v.Delete(k0) })
+			_ = safely(func() { v.Merge(types.WrapHash([]*types.HashEntry{types.WrapHashEntry(k0, other)})) })
+		}
+		_ = safely(func() { v.Select(func(px.Value) bool { return true }) })
+		_ = safely(func() { v.Reject(func(px.Value) bool { return true }) })
+		_ = safely(func() { v.Keys(); v.Values(); v.Slice(0, v.Len()/2) })
+		_ = safely(func() { v.Get(other) })
+		v.EachPair(func(k, e px.Value) { use(k, other); use(e, other) })
+	case *types.Array:
+		_ = safely(func() { v.Add(other) })
+		if o, ok := other.(*types.Array); ok {
+			_ = safely(func() { v.AddAll(o) })
+			_ = safely(func() { v.DeleteAll(o) })
+		}
+		_ = safely(func() { v.Delete(other) })
+		_ = safely(func() { v.Slice(0, v.Len()/2).Add(other) })
+		_ = safely(func() { v.Unique(); v.Flatten() })
+		_ = safely(func() { v.Select(func(px.Value) bool { return true }).Add(other) })
+		v.Each(func(e px.Value) { use(e, other) })
+	}
+}
+
 // hashKeysKeyable: no key of any hash inside the tree contains a Sensitive.  Otherwise building a hash index panics with
 // INVALID_MAP_KEY at a point that depends on Go's map iteration order; such operands print `unkeyable` on both sides.
 func hashKeysKeyable(e sx.Sexp) bool {
@@ -645,6 +691,23 @@ func exec(c px.Context, op string, args []sx.Sexp) core.Result {
 		}
 		if xy3 := equals(valOf(ex), y); xy3 != xy {
 			return pairFail(out, "state-dependent", "a freshly built left operand answers "+xy3+" against a forced right operand, was "+xy, ex, ey, x, y)
+		}
+		// ... and after each operand has been the receiver and the argument of the non-mutating collection operations
+		kx0, _ := keyOf(x)
+		ky0, _ := keyOf(y)
+		use(x, y)
+		use(y, x)
+		if xy4, yx4 := equals(x, y), equals(y, x); xy4 != xy || yx4 != yx {
+			return pairFail(out, "state-dependent", fmt.Sprintf("before the operands were used in Merge/Add/Delete/Select/Slice %s %s, after %s %s", xy, yx, xy4, yx4), ex, ey, x, y)
+		}
+		if xc, yc := equals(x, valOf(ex)), equals(y, valOf(ey)); (xc != "t" && equals(valOf(ex), valOf(ex)) == "t") || (yc != "t" && equals(valOf(ey), valOf(ey)) == "t") {
+			return pairFail(out, "state-dependent", "an operand no longer equals a fresh copy of itself after being used in Merge/Add/Delete/Select/Slice: "+xc+" "+yc, ex, ey, x, y)
+		}
+		if kx4, _ := keyOf(x); kx4 != kx0 {
+			return pairFail(out, "state-dependent", "the key of the left operand changed after it was used in Merge/Add/Delete/Select/Slice", ex, ey, x, y)
+		}
+		if ky4, _ := keyOf(y); ky4 != ky0 {
+			return pairFail(out, "state-dependent", "the key of the right operand changed after it was used in Merge/Add/Delete/Select/Slice", ex, ey, x, y)
 		}
 		if xy == "fault" || yx == "fault" {
 			return pairFail(out, "equals-fault", "Equals faulted", ex, ey, x, y)
